@@ -14,9 +14,9 @@ CHECKS = {
    note="bounded depth / 2-3 ids / listed templates; 128-bit state hashes; listing seam owns map iteration order",
    tech="explicit-state BFS on the implementation (history replay), aggregate-vs-listing invariant on every transition"),
  "C02": dict(engine="seqmc", cat="model_checking", ref="5 (C02), 3.2",
-   text="Every match transition reachable in SC-types (+ an order priced off-level), SC-order, SC-zero and SC-edge is checked for executed+remaining=requested, completion flag, per-transaction fields incl. the generator's next unused id, per-maker conservation (total before = fills + total after, hidden discarded only by a manual reserve) and the filled-id list; results are also compared with the reference model.",
-   note="as C01; lifetime bound follows by induction over the explored transitions; the MatchResult builder grid is part of the C16/C17 grid engine",
-   tech="explicit-state BFS on the implementation + reference-model agreement + accounting predicates per match"),
+   text="Every match transition reachable in SC-types (+ an order priced off-level), SC-order, SC-zero and SC-edge is checked for executed+remaining=requested, completion flag, per-transaction fields incl. the generator's next unused id, per-maker conservation (total before = fills + total after, hidden discarded only by a manual reserve) and the filled-id list (pure predicates from the statement - no queue discipline is pinned); plus the MatchResult builder grid (every sequence of <= 4 transactions, quantities in {0,1,2,3,MAX}, on MatchResult::new(id, q)).",
+   note="as C01; lifetime bound follows by induction over the explored transitions",
+   tech="explicit-state BFS on the implementation with accounting predicates on every match transition + exhaustive builder grid"),
  "C04": dict(engine="seqmc", cat="model_checking", ref="5 (C04), 3.1",
    text="All histories of SC-order (3 ids, 26 letters) and a two-id all-types alphabet up to the reported depth; every result, the resting set and a draining match from every state are compared with the ideal priority model and with the known-deviation variants (KF1 tail re-queue, KF2 stale ticket). Behaviour explained only by an open known finding prints KNOWN-FINDING; behaviour matching no variant is a VIOLATION.",
    note="ideal model written from the statement; zero-display orders excluded (their place is not constrained by C04); known findings listed in KNOWN_FINDINGS.txt",
